@@ -17,6 +17,9 @@
 //!   tok-read <hex>                        -> ok <same 11 fields> | err:<E>
 //!   tok-gen <now_us> <proto> <expire_secs> <id> <timeout> <addrs, no holes> <ud512hex|-> <key>   (ConnectToken::generate; random parts not shown)
 //!                                         -> ok <id> <ver13> <proto> <create> <expire> <timeout> <addrs> consistent=<0|1> | err:<TokenGenerationError> | panic
+//!   tok-make <tk> <now_us> <proto> <expire_secs> <id> <timeout> <addrs, no holes> <ud512hex|-> <key>   (ConnectToken::generate, the
+//!        token is kept in the world under <tk>)  -> ok <id> <proto> <create> <expire> <timeout> <addrs> distinct=<c2s key != s2c key> | err:<E>
+//!   cli-newt <c> <now_us> <tk>            -> ok | err:<E>      (a client for a token made by tok-make; use `nc-quiet 1`: its keys are random)
 //!   ptok-seal <proto> <expire> <xnonce> <key> <id> <timeout> <addrs> <c2s> <s2c> <ud<=256 bytes, zero padded> -> ok <hex1024> | err
 //!   ptok-open <proto> <expire> <xnonce> <key> <hex1024>                              -> ok <id> <timeout> <addrs> <c2s> <s2c> <ud> | err
 //!   srv-new <s> <now_us> <max> <proto> <secure:0|1> <key> <challenge_key> <addrs>    -> ok | panic
@@ -308,6 +311,7 @@ pub struct NcWorld {
     clients: HashMap<u64, NetcodeClient>,
     history: Vec<Vec<u8>>,
     quiet: bool,
+    tokens: HashMap<u64, ConnectToken>,
 }
 
 fn new_world() -> Box<dyn World> {
@@ -517,6 +521,56 @@ impl NcWorld {
                             renetcode::TokenGenerationError::NoServerAddressAvailable => "NoServerAddressAvailable",
                         }
                     )),
+                }
+            }
+            ["tok-make", tk, now, proto, expire_s, id, timeout, addrs, ud, key] => {
+                let (tk, now, proto, expire_s, id, timeout) = (p_u64(tk)?, p_u64(now)?, p_u64(proto)?, p_u64(expire_s)?, p_u64(id)?, p_i32(timeout)?);
+                let addrs = p_addrs_max(addrs, 40)?;
+                let key: [u8; 32] = p_hexn(key)?;
+                let ud: Option<[u8; 256]> = if *ud == "-" { None } else { Some(p_hexn(ud)?) };
+                if addrs.iter().any(|a| a.is_none()) {
+                    return None;
+                }
+                let list: Vec<SocketAddr> = addrs.into_iter().flatten().collect();
+                match ConnectToken::generate(Duration::from_micros(now), proto, expire_s, id, timeout, list, ud.as_ref(), &key) {
+                    Ok(t) => {
+                        let line = format!(
+                            "ok {} {} {} {} {} {} distinct={}",
+                            t.client_id,
+                            t.protocol_id,
+                            t.create_timestamp,
+                            t.expire_timestamp,
+                            t.timeout_seconds,
+                            show_addrs(&t.server_addresses),
+                            (t.client_to_server_key != t.server_to_client_key) as u8
+                        );
+                        self.tokens.insert(tk, t);
+                        Some(line)
+                    }
+                    Err(e) => Some(format!(
+                        "err:{}",
+                        match e {
+                            renetcode::TokenGenerationError::MaxHostCount => "MaxHostCount",
+                            renetcode::TokenGenerationError::CryptoError => "CryptoError",
+                            renetcode::TokenGenerationError::IoError(_) => "IoError",
+                            renetcode::TokenGenerationError::NoServerAddressAvailable => "NoServerAddressAvailable",
+                        }
+                    )),
+                }
+            }
+            ["cli-newt", h, now, tk] => {
+                let h = p_u64(h)?;
+                let now = p_u64(now)?;
+                let t = self.tokens.get(&p_u64(tk)?)?;
+                let mut bytes: Vec<u8> = vec![];
+                t.write(&mut bytes).ok()?;
+                let token = ConnectToken::read(&mut &bytes[..]).ok()?;
+                match NetcodeClient::new(Duration::from_micros(now), ClientAuthentication::Secure { connect_token: token }) {
+                    Ok(c) => {
+                        self.clients.insert(h, c);
+                        Some("ok".into())
+                    }
+                    Err(e) => Some(format!("err:{}", err_name(&e))),
                 }
             }
             ["ptok-seal", proto, expire, xnonce, key, id, timeout, addrs, c2s, s2c, ud] => {
